@@ -645,6 +645,7 @@ fn body(run: &Run, replay: Option<&Value>) {
     extra::spaces_malformed(&ctx, &base);
     extra::spaces_axes(&ctx, &base);
     extra::spaces_explicit_empty(&ctx, &base);
+    extra::spaces_f1_cmap12(&ctx, &base);
     if run.tier == Tier::Thorough {
         spaces_f2_three_large(&ctx, &base);
     }
@@ -704,6 +705,8 @@ fn replay_case(run: &Run, base: &BaseTables, case: &Value) {
     }
     let sds: Vec<_> = defs.iter().map(to_subset_definition).collect();
     let mut l = Local::default();
+    let b12 = extra::base_tables_cmap12();
+    let base = if kind == "f1-cmap12" { &b12 } else { base };
     check_font(&ctx, base, &fc, &defs, &sds, &pairs, &mut l);
     println!("replayed {} definitions", defs.len());
 }
